@@ -112,6 +112,8 @@ M = [
   "        if for_profiling:\n            with open(\n                \"/proc/sys/kernel/perf_event_paranoid\"", "        if True:\n            with open(\n                \"/proc/sys/kernel/perf_event_paranoid\""),
  ('C20', 'd06-restore-skips-sample-rate', 'rebench/denoise.py',
   '            sample_file.write("50000\\n")', '            pass'),
+ ('C20', 'n15-preserve-env-of-first-run-cached', 'rebench/executor.py',
+  '",".join(env.keys())', '",".join(self.__dict__.setdefault("_first_keys", list(env.keys())))'),
  ('C20', 'n14-num-cores-minus-one', 'rebench/executor.py',
   'cmdline += "--num-cores " + str(num_cores) + " "', 'cmdline += "--num-cores " + str(num_cores - 1) + " "'),
 ]
